@@ -52,7 +52,7 @@ func (c18) Info() core.Info {
 			"after an injected reader error the sink log may be any prefix covering at least the packets fully delivered before the failing Read; it must never contain a misaligned, duplicated or reordered packet",
 			"a sink that returns a short count without error is outside the statement: only integrity and order of what is delivered are checked after it",
 		},
-		RequiredProbes: []string{"frag_unaligned", "one_byte", "data_with_eof", "partial_tail", "sink_err_first", "sink_err_mid", "reader_err_mid_packet", "via_io_copy", "write_not_multiple", "write_multi_packet", "closer", "adapter_reused", "adapter_reused_after_partial_tail", "reader_is_writerto"},
+		RequiredProbes: []string{"frag_unaligned", "one_byte", "data_with_eof", "partial_tail", "sink_err_first", "sink_err_mid", "reader_err_mid_packet", "via_io_copy", "write_not_multiple", "write_multi_packet", "closer", "adapter_reused", "adapter_reused_after_partial_tail", "reader_is_writerto", "sink_err_full_count"},
 	}
 }
 
@@ -98,7 +98,7 @@ func (c18) Gen(r *core.Rand, tier string) interface{} {
 	if faultSrc == 0 || faultSrc == 1 {
 		if s.Packets > 0 {
 			s.Sink.FailAt = r.Pick(0, 0, r.Intn(s.Packets), s.Packets-1)
-			s.Sink.Kind = "err"
+			s.Sink.Kind = r.PickS("err", "err", "errfull")
 			if r.Chance(1, 5) {
 				s.Sink.Kind = "short"
 				s.Sink.ShortN = r.Pick(0, 1, 100, 187)
@@ -414,8 +414,14 @@ func (c18) Exec(script interface{}, c *core.Ctx) {
 				c.Fail("error_returned", "sink_error_not_returned", err, sink.Err)
 				return
 			}
-			if n != int64(188*s.Sink.FailAt) {
-				c.Fail("bytes_delivered", "count_after_sink_error", n, 188*s.Sink.FailAt)
+			wantN := int64(188 * s.Sink.FailAt)
+			alsoOK := wantN
+			if s.Sink.Kind == "errfull" {
+				c.Probe("sink_err_full_count")
+				alsoOK += 188 // the failing writer reported these bytes as consumed: counting them or not are both defensible
+			}
+			if n != wantN && n != alsoOK {
+				c.Fail("bytes_delivered", "count_after_sink_error", n, wantN)
 				return
 			}
 		case sr.FirstErr != nil:
